@@ -14,7 +14,7 @@ Definition dec_chmap (v : val) (ch : Z) : Z :=
 
 Definition check_client (pkts : list pkt) (cv ov : val) : bool :=
   let kind := as_int (nthv 0 cv) in
-  if kind <? 4 then
+  if (kind <? 4) || (kind =? 6) then
     ok_wire kind (dec_chmap (nthv 1 cv))
             (map (fun i => nth (as_nat i) pkts (0, [])) (as_list (nthv 2 cv)))
             (map dec_pkt (as_list (nthv 0 ov)))
